@@ -39,17 +39,19 @@ def faceVertices (n : Nat) : List Nat → P Val (List Val)
 
 /-! ## star search (pure) -/
 
-/-- indices of the `windows(2)` segments kept by the filter for candidate `id`:
-    `!((n + i_seg) % n == id || (n + i_seg - 1) % n == id)` over `i_seg ∈ 0..n-1` -/
+/-- indices of the sides kept by the filter for candidate `id` (since /repo 00af791: every side `0..n`, the
+    closing one included, minus the two incident ones): `!(i_seg == id || (i_seg + 1) % n == id)` -/
 def fanSegs (n id : Nat) : List Nat :=
-  (List.range (n - 1)).filter (fun i => !((n + i) % n = id || (n + i - 1) % n = id))
+  (List.range n).filter (fun i => !(i = id || (i + 1) % n = id))
 
-/-- the star test of candidate `id`: `none` = `unwrap` on an empty iterator (panic) -/
+/-- the star test of candidate `id`: `none` = `unwrap` on an empty iterator (panic).  Side `i` is
+    `(v_i, v_{(i+1) % n})`; the first kept side only gives the reference `signum`, the others must have the same
+    `signum` and a cross product of magnitude `≥ ε` -/
 def fanTest (vs : List P2) (id : Nat) : Option Bool :=
   let n := vs.length
   let v0 := vs.getD id default
-  let cr := (fanSegs n id).map (fun i => (cross v0 (vs.getD i default) (vs.getD (i + 1) default),
-                                           crossNegZero v0 (vs.getD i default) (vs.getD (i + 1) default)))
+  let cr := (fanSegs n id).map (fun i => (cross v0 (vs.getD i default) (vs.getD ((i + 1) % n) default),
+                                           crossNegZero v0 (vs.getD i default) (vs.getD ((i + 1) % n) default)))
   match cr with
   | [] => none
   | (c0, z0) :: rest =>
